@@ -42,8 +42,42 @@ Life(m, e) ==
 Settled(m) == IF m.cl THEN [m EXCEPT !.cl = FALSE, !.started = FALSE, !.run = [i \in DOMAIN @ |-> IF i \in Announced(m) THEN FALSE ELSE @[i]]] ELSE m
 
 SvcOf(m, i) == m.cfg.inst[i].svc
+SubKey(x) == <<x.svc, x.eg, x.ctr, x.eps>>
+
+(* ---- ghost model of the server-side subscriptions (C06, C11), from the inputs alone ----
+   sess  <<src, mc>> -> <<flag, id>>          (reboot evidence by the rule of C07)
+   live  <<inst, src, key>> -> remaining life; AMB = "either" (a Subscribe that the listener would
+         reject arrived in the very tick in which the subscription expires: refreshed -- the listener
+         is not consulted -- or expired and rejected; both are accepted, C09)
+   exp   keys whose life ran out in the current tick                                          *)
+Amb(ttl) == 0 - ttl          \* "either not live, or live for ttl": settled by what the implementation reports
+GhostInit == [sess |-> <<>>, live |-> <<>>, exp |-> {}]
+RECURSIVE GSetLive(_, _, _)
+GSetLive(m, ks, v) == IF ks = {} THEN m ELSE LET k == CHOOSE k \in ks : TRUE IN GSetLive([m EXCEPT !.live = Put(@, k, v)], ks \ {k}, v)
+GKill(m, P(_)) == [m EXCEPT !.live = [k \in DOMAIN @ |-> IF P(k) THEN 0 ELSE @[k]]]
+GLive(m, k) == Get(m.live, k, 0)
+GHit(m, en) == {i \in Announced(m) : m.run[i] /\ en.svc \in Range(m.cfg.inst[i].subs) /\ en.eg \in Range(m.cfg.inst[i].egs)}
+\* what one Subscribe entry does to the ghost
+GEntry(m, src, en) ==
+  IF en.ty # "sub" THEN m
+  ELSE LET ks == {<<i, src, SubKey(en)>> : i \in GHit(m, en)} IN
+       IF en.ttl = 0 THEN GSetLive(m, ks, 0)
+       ELSE IF m.cl THEN m                                       \* will be wiped by the pending connection loss
+       ELSE IF en.acc THEN GSetLive(m, ks, en.ttl)
+       ELSE GSetLive(GSetLive(m, {k \in ks : GLive(m, k) > 0}, en.ttl),       \* refresh: listener not consulted
+                     {k \in ks : GLive(m, k) = 0 /\ k \in m.exp}, Amb(en.ttl))
+\* reboot evidence of a message, applied before its entries
+GReboot(m, e) ==
+  LET k   == <<e.src, e.mc>>
+      reb == k \in DOMAIN m.sess /\ e.rb /\ (~m.sess[k][1] \/ m.sess[k][2] >= e.sid)
+      m1  == [m EXCEPT !.sess = Put(@, k, <<e.rb, e.sid>>)]
+  IN IF reb THEN GKill(m1, LAMBDA x : x[2] = e.src) ELSE m1
+GAdv(m, d) ==
+  LET nv(x) == IF x = FOREVER THEN x ELSE IF x <= 0 THEN 0 ELSE IF x > d THEN x - d ELSE 0
+  IN [m EXCEPT !.exp = {k \in DOMAIN m.live : m.live[k] > 0 /\ nv(m.live[k]) = 0},
+               !.live = [k \in DOMAIN @ |-> nv(@[k])]]
 InstOfSvc(m, svc) == {i \in Insts(m) : SvcOf(m, i) = svc}
 SubMatches(m, i, en) == en.svc \in Range(m.cfg.inst[i].subs) /\ en.eg \in Range(m.cfg.inst[i].egs)
 FindMatches(m, i, flt) == flt \in DOMAIN m.cfg.findMatch /\ SvcOf(m, i) \in Range(m.cfg.findMatch[flt])
-Rejected(m, en) == en.ctr \in Range(m.cfg.rejectCtr)
+Rejected(m, en) == ~en.acc      \* the decision the server-side listener takes for this entry (part of the input)
 =============================================================================
